@@ -750,7 +750,7 @@ class DeferQueue:
 
     def __init__(self):
         self._writes = []
-        self._pending_offsets = set()
+        self._pending_offsets = {}
         self._next_offset = 0
 
     def request_writes(self, offset, data):
@@ -771,18 +771,30 @@ class DeferQueue:
             # seen.  This can happen in the event of a retry
             # where if we retry at at offset N/2, we'll requeue
             # offsets 0-N/2 again.
-            return []
+            if offset + len(data) <= self._next_offset:
+                return []
+            # The retried request may be chunked differently than the
+            # original one, so only the beginning of this data has been
+            # seen. Keep the part that has not been written yet.
+            data = data[self._next_offset - offset :]
+            offset = self._next_offset
         writes = []
-        if offset in self._pending_offsets:
+        if len(data) <= self._pending_offsets.get(offset, -1):
             # We've already queued this offset so this request is
             # a duplicate.  In this case we should ignore
             # this request and prefer what's already queued.
             return []
         heapq.heappush(self._writes, (offset, data))
-        self._pending_offsets.add(offset)
-        while self._writes and self._writes[0][0] == self._next_offset:
-            next_write = heapq.heappop(self._writes)
-            writes.append({'offset': next_write[0], 'data': next_write[1]})
-            self._pending_offsets.remove(next_write[0])
-            self._next_offset += len(next_write[1])
+        self._pending_offsets[offset] = len(data)
+        while self._writes and self._writes[0][0] <= self._next_offset:
+            next_offset, next_data = heapq.heappop(self._writes)
+            self._pending_offsets.pop(next_offset, None)
+            # Queued data may overlap with what has been written in the
+            # meantime (differently chunked retries), only write the rest.
+            seen = self._next_offset - next_offset
+            if seen and seen >= len(next_data):
+                continue
+            next_data = next_data[seen:]
+            writes.append({'offset': self._next_offset, 'data': next_data})
+            self._next_offset += len(next_data)
         return writes
